@@ -430,18 +430,18 @@ func (c *channel) trySubmitCommandResult(respCmd *ResponseCommand) bool {
 	}
 
 	verifHook("ts.enter", c.transport, respCmd)
-	c.processingCmdsMu.RLock()
+	// Take the pending command out of the map in a single step, otherwise
+	// the entry of a newer command with the same id could be removed
+	c.processingCmdsMu.Lock()
 	respChan, ok := c.processingCmds[respCmd.ID]
-	c.processingCmdsMu.RUnlock()
+	if ok {
+		delete(c.processingCmds, respCmd.ID)
+	}
+	c.processingCmdsMu.Unlock()
 
 	if !ok {
 		return false
 	}
-
-	verifHook("ts.looked", c.transport, respCmd)
-	c.processingCmdsMu.Lock()
-	delete(c.processingCmds, respCmd.ID)
-	c.processingCmdsMu.Unlock()
 	verifHook("ts.deleted", c.transport, respCmd)
 
 	respChan <- respCmd
